@@ -284,10 +284,19 @@ def execute(ctx, case):
         return
 
     if k == "gzcut":
-        gz, ends = faultio.gzip_sync_stream([body_with_len for body_with_len in (data[s:e] for s, e, _ in frames)])
+        pieces = [data[s:e] for s, e, _ in frames]
+        if _PARTS:
+            # an appended-to file: every part is its own gzip member (what a later writer on the same .gz path, or cat, produces)
+            hdr = [j for j, (s_, e_, body) in enumerate(frames) if data[s_:e_] == refcodec.HEADER_FRAME]
+            groups = [pieces[a:b] for a, b in zip(hdr, hdr[1:] + [len(pieces)])]
+            gz = faultio.gzip_members(groups)
+            ctx.event("gzcut_multi_member_files")
+            ctx.event("gzcut_members", len(groups))
+        else:
+            gz, ends = faultio.gzip_sync_stream(pieces)
         for n in range(len(gz) + 1):
             cut = gz[:n]
-            plain = faultio.gzip_decodable_prefix(cut)
+            plain = faultio.gzip_decodable_prefix_multi(cut) if _PARTS else faultio.gzip_decodable_prefix(cut)
             if data[: len(plain)] != plain:
                 ctx.note_add("gzip_prefix_model_mismatch")
                 continue
